@@ -126,7 +126,7 @@ inductive Expect
   | err                              -- "-ERR …"
   | okText (t : Bytes)               -- "+OK " followed by exactly this text
   | okStat (total : Nat)             -- "+OK <count> <total>", count not compared
-  | okNum                            -- "+OK <number>"
+  | okNum (n : Nat)                  -- "+OK <n>"
   | multi (ls : List Bytes)          -- "+OK …" then this multi-line response
   | multiOrErr (ls : List Bytes)     -- either of the two
   | quit                             -- end of session
@@ -141,7 +141,9 @@ def refStep (s : RSt) (verb arg : Bytes) : RSt × Expect :=
   else if verb = [114, 115, 101, 116] then ({ s with marked := [] }, .ok)
   else if verb = [115, 116, 97, 116] then
     (s, .okStat ((s.msgs.zipIdx.filter (fun (_, i) => !s.marked.contains i)).foldl (fun t (m, _) => t + m.data.length) 0))
-  else if verb = [108, 97, 115, 116] then (s, .okNum)
+  else if verb = [108, 97, 115, 116] then
+    -- LAST: the highest message number marked deleted since the last RSET, 0 if none
+    (s, .okNum (s.marked.foldl (fun a i => max a (i + 1)) 0))
   else if verb = [100, 101, 108, 101] then
     match s.valid arg with
     | some i => ({ s with marked := i :: s.marked }, .ok)
@@ -183,9 +185,9 @@ def matchReply (e : Expect) (w : Bytes) : Option Bytes :=
       match words (l.drop 3) with
       | [a, b] => if isOk l ∧ (number? a).isSome ∧ number? b = some total then some rest else none
       | _ => none
-    | .okNum =>
+    | .okNum n =>
       match words (l.drop 3) with
-      | [a] => if isOk l ∧ (number? a).isSome then some rest else none
+      | [a] => if isOk l ∧ number? a = some n then some rest else none
       | _ => none
     | .multi ls =>
       if isOk l then
